@@ -159,14 +159,17 @@ impl MzMLReader {
                     };
                     match ev.name().into_inner() {
                         b"spectrum" => {
-                            let id = extract!(ev, b"id");
-                            let id = std::str::from_utf8(&id)?;
+                            // attribute values are XML-escaped in the file (`&amp;`, `&quot;`, ...)
+                            let id = ev
+                                .try_get_attribute(b"id")?
+                                .ok_or(MzMLError::Malformed)?
+                                .unescape_value()?;
                             spectrum.id = id.to_string();
                         }
                         b"precursor" => {
                             // Not all precursor fields have a spectrumRef
                             if let Some(scan) = ev.try_get_attribute(b"spectrumRef")? {
-                                let scan = std::str::from_utf8(&scan.value)?;
+                                let scan = scan.unescape_value()?;
                                 precursor.spectrum_ref = Some(scan.to_string())
                             }
                         }
